@@ -30,7 +30,11 @@ def run(ctx):
     if q:
         run_strs(ctx, 2000, 30, 25, 300)
     else:
-        run_strs(ctx, 200000, 40, 1500, 20000)
+        # 20 chunks (independent seeds) of 10 000 sequences x 40 ops + 75 sweeps + 1000 decode/format cases
+        for i in range(20):
+            run_strs(ctx, 10000, 40, 75, 1000, seed_offset=1009 * i, label=f"chunk-{i}")
+            if [f for f in ctx.oracle_failures if not f.get("known")] or ctx.disagreements:
+                break
     new_oracle = [f for f in ctx.oracle_failures if not f.get("known")]
     if (not proved or ctx.disagreements) and not new_oracle and q:
         # a proof obligation or the correspondence broke: search harder for a concrete failing input
